@@ -41,13 +41,14 @@ type Fix struct {
 	// assets
 	CMDX, CMST, HARBOR, ATOM, USDC, GOVC, CCMDX, CCMST, CATOM uint64
 	// apps
-	AppHarbor, AppCommodo, AppCswap uint64
+	AppHarbor, AppCommodo, AppCswap, AppDecoy uint64
 	// vault products
 	EpCmdx, EpAtom, EpStable, EpStable2 uint64
 	// lend
 	Pool, PairCmdxCmst, PairAtomCmst, PairCmdxAtom uint64
 	// liquidity
 	LPair, LPool uint64
+	AltPair, DecoyPair uint64 // another pair of the same app / a pair of a second liquidity app, with colliding order ids
 	PoolCoin     string
 }
 
@@ -180,6 +181,7 @@ func NewFixture() *Fix {
 	f.AppHarbor = f.addApp("harbor", "hbr", f.HARBOR, f.LP)
 	f.AppCommodo = f.addApp("commodo", "cmdo", f.GOVC, f.LP)
 	f.AppCswap = f.addApp("cswap", "cswap", 0, nil)
+	f.AppDecoy = f.addApp("decoy", "decoy", 0, nil)
 
 	for _, u := range []sdk.AccAddress{f.Owner, f.Other, f.LP, f.Risk, f.Newbie} {
 		fund(e, u, coin("ucmdx", 1000000*unit), coin("ucmst", 1000000*unit), coin("uatom", 1000000*unit), coin("uusdc", 1000000*unit))
@@ -377,6 +379,30 @@ func (f *Fix) liquiditySetup() {
 	mustOK(e.Deliver(liquiditytypes.NewMsgCreatePair(f.AppCswap, f.LP, "ucmdx", "ucmst")), "create pair")
 	pairs := k.GetAllPairs(e.Ctx, f.AppCswap)
 	f.LPair = pairs[len(pairs)-1].Id
+	f.AltPair = pairs[0].Id
+	// a second liquidity app whose pair ids (and per-pair order ids) collide with those of cswap
+	dparams, err := k.GetGenericParams(e.Ctx, f.AppDecoy)
+	must(err)
+	fund(e, f.LP, dparams.PairCreationFee...)
+	mustOK(e.Deliver(liquiditytypes.NewMsgCreatePair(f.AppDecoy, f.LP, "ucmdx", "uatom")), "create decoy pair")
+	f.DecoyPair = k.GetAllPairs(e.Ctx, f.AppDecoy)[0].Id
+	// resting sell orders of owner, other and risk in the alt pair and in the decoy app, interleaved, enough of them that their
+	// per-pair ids cover every order id handed out in the traded pair (limit orders + both market-making ladders)
+	rest := func(app, pair uint64, u sdk.AccAddress, n int64) {
+		offer := coin("ucmdx", n*unit)
+		offer = offer.AddAmount(sdk.NewDecFromInt(offer.Amount).Mul(params.SwapFeeRate).RoundInt())
+		mustOK(e.Deliver(liquiditytypes.NewMsgLimitOrder(app, u, pair, liquiditytypes.OrderDirectionSell, offer, "uatom", d("0.25"), i(n*unit), 12*time.Hour)), "resting order")
+	}
+	for n := int64(0); n < 20; n++ {
+		for _, u := range []sdk.AccAddress{f.Owner, f.Other, f.Risk} {
+			rest(f.AppCswap, f.AltPair, u, 1+n%3)
+		}
+	}
+	for n := int64(0); n < 4; n++ {
+		for _, u := range []sdk.AccAddress{f.Owner, f.Other, f.Risk} {
+			rest(f.AppDecoy, f.DecoyPair, u, 1+n%3)
+		}
+	}
 	mustOK(e.Deliver(liquiditytypes.NewMsgCreatePool(f.AppCswap, f.LP, f.LPair, sdk.NewCoins(coin("ucmdx", 1000*unit), coin("ucmst", 2000*unit)))), "create pool")
 	pools := k.GetAllPools(e.Ctx, f.AppCswap)
 	f.LPool = pools[len(pools)-1].Id
